@@ -712,6 +712,11 @@ def run_e(prop, tier, n_st=350, n_pool=350, dfs_budget=500, long_runs=30):
             be_fails, be_runs = sf + be_fails, be_runs + sr
             tf, tr = thread_race_checks(ld, r, tier)
             be_fails, be_runs = tf + be_fails, be_runs + tr
+            of, orr = seeded_order_checks(ld, r, tier)
+            be_fails, be_runs = of + be_fails, be_runs + orr
+        if prop == 'C06':
+            rf, rr = random_order_catch_checks(ld, r, tier)
+            be_fails, be_runs = rf + be_fails, be_runs + rr
         for msg in be_fails[:5]:
             failures.append(dict(kind='schedule', summary=msg, config=dict(kind='backend'), got_from_impl=msg))
     if prop == 'C05':
@@ -1105,6 +1110,90 @@ def shape_checks(ld, r, tier):
                     got = f'raised {type(e).__name__}: {e}'[:200]
                 if got != want:
                     fails.append(f'backend {be} {how}: the state of the map function changes between the epochs of one dataset object (factor 2, 3, 5): parallel {got} vs sequential {want}')
+    return fails, runs
+
+
+def random_order_catch_checks(ld, r, tier):
+    """C06 with inputs whose order is drawn per epoch (a reshuffle, a lazy apply) below the prefetch: exactly the examples that raise a
+    selected class are omitted - on the single-thread path as on the pool path - and an unselected class still reaches the consumer"""
+    import numpy as np, warnings
+    fails, runs = [], 0
+    with warnings.catch_warnings():
+        warnings.simplefilter('ignore')
+        for _ in range(40 if tier == 'quick' else 400):
+            n = r.randint(2, 8)
+            bad = sorted(x for x in range(n) if r.random() < 0.3)
+            cls = r.choice(['FilterException', 'KeyError', 'FnFail'])
+            catch = r.choice([True, (KeyError, ld.FilterException), (FnFail,), KeyError])
+            ctypes = (ld.FilterException,) if catch is True else (catch,) if isinstance(catch, type) else tuple(catch)
+            selected = issubclass(bexc(cls), ctypes)
+            table = {x: ('raise', cls) for x in bad}
+            below = r.choice(['reshuffle', 'reshuffle_map', 'lazyapply', 'reshuffle_batch'])
+            w, b = r.choice([(1, 1), (1, 3), (2, 2), (3, 3)])
+            seed = r.randint(0, 10 ** 6)
+            src = ld.new({f'k{i:02d}': i for i in range(n)})
+            try:
+                if below == 'reshuffle': d = src.shuffle(True, rng=np.random.RandomState(seed)).map(BFn(table))
+                elif below == 'reshuffle_map': d = src.map(BFn(table)).shuffle(True, rng=np.random.RandomState(seed)).map(_ident_e)
+                elif below == 'lazyapply': d = src.map(BFn(table)).apply(_LazyShuffle(seed), lazy=True)
+                else: d = src.shuffle(True, rng=np.random.RandomState(seed)).map(BFn(table))
+                p = d.prefetch(w, b, catch_filter_exception=catch)
+            except Exception:
+                continue
+            for epoch in range(2):
+                runs += 1
+                got = b_observe(lambda: p)
+                good = sorted(x + 1 for x in range(n) if x not in bad)
+                what = f'prefetch({w}, {b}, catch_filter_exception={catch}) above {below} (n={n}, examples {bad} raise {cls}), epoch {epoch + 1}'
+                if selected or not bad:
+                    if got[1] is not None or sorted(got[0]) != good:
+                        fails.append(f'{what}: consumer got {got[0]} then {got[1]}; exactly {good} (in some order) must be delivered and nothing raised')
+                        break
+                else:
+                    if got[1] is None or got[1][0] != bexc(cls).__name__ or not set(got[0]) <= set(good):
+                        fails.append(f'{what}: consumer got {got[0]} then {got[1]}; the unselected {cls} must reach the consumer after a subset of {good}')
+                        break
+    return fails, runs
+
+
+class _LazyShuffle:
+    def __init__(self, seed):
+        import numpy as np
+        self.rng = np.random.RandomState(seed)
+
+    def __call__(self, ds):
+        return ds.shuffle(True, rng=self.rng)
+
+
+def seeded_order_checks(ld, r, tier):
+    """C04 with a seeded per-epoch reshuffle below: epoch k behind prefetch (any worker count, with and without catching, also a copy of
+    the prefetch stage) is epoch k of the identically seeded sequential pipeline - building a stage consumes no randomness"""
+    import numpy as np, warnings
+    fails, runs = [], 0
+    with warnings.catch_warnings():
+        warnings.simplefilter('ignore')
+        for _ in range(24 if tier == 'quick' else 300):
+            n, seed = r.randint(3, 8), r.randint(0, 10 ** 6)
+            w, b = r.choice([(1, 2), (2, 2), (2, 4), (3, 4)])
+            variant = r.choice(['plain', 'catch', 'copy', 'unused_first', 'map_above'])
+
+            def base():
+                return ld.new(list(range(n))).shuffle(True, rng=np.random.RandomState(seed)).map(_ident_e)
+            try:
+                seq = base()
+                want = [list(seq) for _e in range(3)]
+                d = base()
+                if variant == 'unused_first':
+                    d.prefetch(2, 4)                       # a prefetch stage that is built and never iterated
+                p = d.prefetch(w, b, catch_filter_exception=True) if variant == 'catch' else d.prefetch(w, b)
+                if variant == 'copy': p = p.copy()
+                if variant == 'map_above': p = p.map(_ident_e)
+                got = [list(p) for _e in range(3)]
+                runs += 1
+                if got != want:
+                    fails.append(f'prefetch({w}, {b}) [{variant}] above a reshuffle of {n} examples seeded with {seed}: epochs {got}; the identically seeded sequential pipeline gives {want}')
+            except Exception as e:
+                fails.append(f'prefetch({w}, {b}) [{variant}] above a seeded reshuffle raised {type(e).__name__}: {e}'[:300])
     return fails, runs
 
 
